@@ -287,6 +287,13 @@ class Builder:
 
     def connect(self, fr: Frontier, node: int, label: Optional[str] = None) -> None:
         for src, lab in fr:
+            if label is not None and lab in ('T', 'F') and label != lab:
+                # keep the branch outcome: T/F edge into a nop, then the overriding label
+                src_ev = self.g.evs[src]
+                mid = self.new('nop', src_ev.node, src_ev.inst, what='branch-arm')
+                self.g.add_edge(src, mid, lab)
+                self.g.add_edge(mid, node, label)
+                continue
             self.g.add_edge(src, node, label or lab)
 
     def step(self, fr: Frontier, kind: str, node, inst: Inst, **info) -> Tuple[int, Frontier]:
